@@ -9,6 +9,7 @@ def run(tier, seed):
     out = [relay.suite_validate(tier, seed, pid="C19"), relay.suite_hostile(tier, seed, "sql", pid="C19")]
     if tier == "thorough":
         out.append(relay.suite_hostile(tier, seed, "kv", pid="C19"))
+    out.append(relay.suite_churn(tier, seed, "sql", pid="C19"))
     out.append(relay.suite_relay(tier, seed, "sql", n=25 if tier == "quick" else 200, hostile=True, label="hostile-mix", pid="C19"))
     return out
 
